@@ -1,17 +1,90 @@
 import LenaModel.DriverUtil
 import LenaModel.Model.C17
+import LenaModel.Model.C17Sess
 /-! Model driver for C17.  Requests:
   {"op":"slice","start":i|null,"stop":i|null,"step":i|null,"xs":[ints]}  -> {"r":[..]} | {"e":"LenaValueError"|"IndexError"}
   {"op":"pyslice",...same, step ≥ 1 or null}                             -> {"r":[..]}
   {"op":"fill_into","start":n,"stop":n|null,"step":n,"xs":[..]}          -> {"r":[..],"stop":i|null}
   {"op":"reverse","xs":[..]} {"op":"chain","xss":[[..],..]} {"op":"countfrom","start":i,"step":i,"n":n}
-  {"op":"chunks","cs":n,"xs":[..]} {"op":"windows","cs":n,"xs":[..]} -/
+  {"op":"chunks","cs":n,"xs":[..]} {"op":"windows","cs":n,"xs":[..]}
+ one instance used more than once (`Model/C17Sess`); OPS is a list whose items are a flow `[ints]` (= create a generator
+ with `run(iter(flow))` / `__call__()`; the flow is ignored by countfrom and chain) or a number g (= `next` of generator g):
+  {"op":"session","el":"countfrom","start":i,"step":i,"ops":OPS,"tail":n}   -> {"ev":[[g,v]|[g,null],..],"rest":[[next n values],..]}
+  {"op":"session","el":"slice","start":..,"stop":..,"step":..,"ops":OPS}    -> {"ev":..,"rest":[[values not yet yielded],..]} | {"e":"LenaValueError"}
+  {"op":"session","el":"reverse","ops":OPS} {"op":"session","el":"chunks","cs":n,"ops":OPS} {"op":"session","el":"chain","xss":[[..],..],"ops":OPS}
+  {"op":"slice_inst","start":..,"stop":..,"step":..,"ops":[ [ints] (= list(run(iter(flow)))) | v (= fill_into(el, v)) ]}
+        -> {"ev":[{"r":[..]}|{"e":..}|"filled"|"skipped"|"stop"|"AttributeError",..]} | {"e":"LenaValueError"}
+  {"op":"fill_trace","start":n,"stop":n|null,"step":n,"xs":[..]}            -> {"out":["filled"|"skipped"|"stop",..],"r":[filled values]} -/
 open Lean Lena.Drv Lena.C17
 
 def outJson : Option (Out Int) → Json
   | none => Json.mkObj [("e", "LenaValueError")]
   | some .indexError => Json.mkObj [("e", "IndexError")]
   | some (.ok ys) => Json.mkObj [("r", ofIntList ys)]
+
+/-- an item of OPS: a number is `next g`, a list of integers is `start flow` -/
+def genOp? (j : Json) : Option (GenOp (List Int)) :=
+  match nat? j with
+  | some g => some (.next g)
+  | none => (intList? j).map .start
+
+def unitOps (ops : List (GenOp (List Int))) : List (GenOp Unit) :=
+  ops.map fun
+    | .start _ => .start ()
+    | .next g => .next g
+
+def evJson {β : Type} (f : β → Json) : GenEv β → Json
+  | .value g v => Json.arr #[ofNat g, f v]
+  | .stop g => Json.arr #[ofNat g, Json.null]
+
+def sessReply {σ ι γ β : Type} (E : GenElem σ ι γ β) (s : Sess σ γ) (ops : List (GenOp ι))
+    (f : β → Json) (rest : γ → List β) : Json :=
+  Json.mkObj [("ev", ofList (evJson f) (sessEvents E s ops)),
+    ("rest", ofList (fun g => ofList f (rest g)) (sessAfter E s ops).gens)]
+
+def sessionOp (j : Json) : Json :=
+  match (arr? (getD j "ops")).bind (fun a => a.toList.mapM genOp?) with
+  | none => err "bad session ops"
+  | some ops =>
+    match str? (getD j "el") with
+    | some "countfrom" =>
+      match int? (getD j "start"), int? (getD j "step"), nat? (getD j "tail") with
+      | some a, some s, some n =>
+        sessReply countElem (countSess a s) (unitOps ops) ofInt (genTake countElem.next n)
+      | _, _, _ => err "bad countfrom session args"
+    | some "slice" =>
+      match optInt (getD j "start"), optInt (getD j "stop"), optInt (getD j "step") with
+      | some a, some b, some s =>
+        match mkSlice a b s with
+        | .valueError => Json.mkObj [("e", "LenaValueError")]
+        | k => sessReply sliceElem { inst := k, gens := [] } ops ofInt id
+      | _, _, _ => err "bad slice session args"
+    | some "reverse" => sessReply reverseElem { inst := (), gens := [] } ops ofInt id
+    | some "chunks" =>
+      match nat? (getD j "cs") with
+      | some cs => sessReply chunkElem { inst := cs, gens := [] } ops ofIntList id
+      | none => err "bad chunks session args"
+    | some "chain" =>
+      match (arr? (getD j "xss")).bind (fun a => a.toList.mapM intList?) with
+      | some xss => sessReply chainElem { inst := xss, gens := [] } (unitOps ops) ofInt id
+      | none => err "bad chain session args"
+    | _ => err "unknown session element"
+
+/-- an item of the `slice_inst` OPS: a number is `fill_into(el, v)`, a list of integers is a `run` -/
+def sliceOp? (j : Json) : Option (SliceOp Int) :=
+  match int? j with
+  | some v => some (.fill v)
+  | none => (intList? j).map .run
+
+def fillOutJson : FillOut → Json
+  | .filled => "filled"
+  | .skipped => "skipped"
+  | .stopFill => "stop"
+
+def sliceEvJson : SliceEv Int → Json
+  | .ran o => outJson o
+  | .fill o => fillOutJson o
+  | .attributeError => "AttributeError"
 
 def handle (j : Json) : Json :=
   match str? (getD j "op") with
@@ -49,6 +122,21 @@ def handle (j : Json) : Json :=
     match nat? (getD j "cs"), intList? (getD j "xs") with
     | some cs, some xs => Json.mkObj [("r", ofList ofIntList (windows cs xs))]
     | _, _ => err "bad windows args"
+  | some "session" => sessionOp j
+  | some "slice_inst" =>
+    match optInt (getD j "start"), optInt (getD j "stop"), optInt (getD j "step"),
+        (arr? (getD j "ops")).bind (fun a => a.toList.mapM sliceOp?) with
+    | some a, some b, some s, some ops =>
+      match mkSliceInst a b s with
+      | none => Json.mkObj [("e", "LenaValueError")]
+      | some c => Json.mkObj [("ev", ofList sliceEvJson (c.events ops))]
+    | _, _, _, _ => err "bad slice_inst args"
+  | some "fill_trace" =>
+    match nat? (getD j "start"), optInt (getD j "stop"), nat? (getD j "step"), intList? (getD j "xs") with
+    | some a, some b, some s, some xs =>
+      let outs := fillTrace (b.map Int.toNat) s (fillInit a) xs
+      Json.mkObj [("out", ofList fillOutJson outs), ("r", ofIntList (filledOf xs outs))]
+    | _, _, _, _ => err "bad fill_trace args"
   | _ => err "unknown op"
 
 def main : IO Unit := run handle
